@@ -205,7 +205,7 @@ func cmdBackoffGrid(args []string) error {
 		}
 	}
 	id := uuid.MustParse("6ba7b810-9dad-11d1-80b4-00c04fd430c8")
-	var lines []string
+	var lines, sat []string
 	for _, p := range pols {
 		sub := &ent.Subscription{ID: id}
 		// MinBackoff / MaxBackoff are *sqltypes.Interval (an internal type): set through reflection
@@ -215,9 +215,33 @@ func cmdBackoffGrid(args []string) error {
 		if p.max != nil {
 			setIntervalField(sub, "MaxBackoff", *p.max)
 		}
+		// every attempt number up to max-n is compared with the exact model value
 		for n := 0; n <= *maxN; n++ {
 			nom, fz := actions.NextDelayFor(sub, n)
 			lines = append(lines, fmt.Sprintf("(%s, %s, %s, %s, %s)", durOZ(p.min), durOZ(p.max), coqZ(int64(n)), coqZ(int64(nom)), coqZ(int64(fz-nom))))
+		}
+		// attempt numbers far beyond saturation: the float computation must saturate at the
+		// maximum, not overflow. n0 = first saturated attempt (found here with exact integer
+		// arithmetic, re-checked by the model at n0); the model value at n >= n0 is then the
+		// maximum by theorem Backoff.nominal_saturated_stays
+		var pmin, pmax *int64
+		if p.min != nil {
+			v := int64(*p.min)
+			pmin = &v
+		}
+		if p.max != nil {
+			v := int64(*p.max)
+			pmax = &v
+		}
+		n0 := int64(0)
+		for exactNominal(pmin, pmax, n0) != exactNominal(pmin, pmax, 100000) && n0 < 2000 {
+			n0++
+		}
+		for _, n := range []int64{150, 200, 216, 217, 218, 250, 300, 400, 500, 1000, 7450, 7451, 10000, 1000000, 2147483647} {
+			if n > int64(*maxN) && n >= n0 {
+				nom, fz := actions.NextDelayFor(sub, int(n))
+				sat = append(sat, fmt.Sprintf("(%s, %s, %s, %s, %s, %s)", durOZ(p.min), durOZ(p.max), coqZ(n0), coqZ(n), coqZ(int64(nom)), coqZ(int64(fz-nom))))
+			}
 		}
 	}
 	hdr := `From MB Require Import Base Backoff.
@@ -230,6 +254,14 @@ Definition gchk (c : option Z * option Z * Z * Z * Z) : bool :=
   let '(mn, mx, n, nom, fz) := c in
   (Z.abs (nom - nominal mn mx n) <=? float_tol) && fuzz_legal (nominal mn mx n) (nom - nominal mn mx n + fz) &&
   (nominal mn mx n =? nominal_delay mn mx n).
+(* (min, max, n0, attempts >= n0, Go nominal delay, Go jitter): the model saturates at n0
+   (evaluated), hence at every later attempt (BackoffProofs.nominal_saturated_stays); the
+   Go result must be the maximum *)
+Definition schk (c : option Z * option Z * Z * Z * Z * Z) : bool :=
+  let '(mn, mx, n0, n, nom, fz) := c in
+  (0 <=? n0) && (n0 <=? n) && (nominal mn mx n0 =? eff default_max mx) &&
+  (Z.abs (nom - eff default_max mx) <=? float_tol) &&
+  fuzz_legal (eff default_max mx) (nom - eff default_max mx + fz).
 Definition cases : list (option Z * option Z * Z * Z * Z) := [
 `
 	const shards = 16
@@ -237,13 +269,19 @@ Definition cases : list (option Z * option Z * Z * Z * Z) := [
 	for i, l := range lines {
 		sh[i%shards] = append(sh[i%shards], l)
 	}
+	ss := make([][]string, shards)
+	for i, l := range sat {
+		ss[i%shards] = append(ss[i%shards], l)
+	}
 	for k := 0; k < shards; k++ {
-		body := hdr + strings.Join(sh[k], ";\n") + "].\nDefinition bad := Eval vm_compute in filter (fun c => negb (gchk c)) cases.\nPrint bad.\n"
+		body := hdr + strings.Join(sh[k], ";\n") + "].\nDefinition bad := Eval vm_compute in filter (fun c => negb (gchk c)) cases.\nPrint bad.\n" +
+			"Definition satcases : list (option Z * option Z * Z * Z * Z * Z) := [\n" + strings.Join(ss[k], ";\n") +
+			"].\nDefinition satbad := Eval vm_compute in filter (fun c => negb (schk c)) satcases.\nPrint satbad.\n"
 		if err := os.WriteFile(filepath.Join(*out, fmt.Sprintf("backoff_%02d.v", k)), []byte(body), 0o644); err != nil {
 			return err
 		}
 	}
-	return writeJSON(filepath.Join(*out, "backoff.json"), map[string]interface{}{"policies": len(pols), "cases": len(lines), "samples": lines[:3]})
+	return writeJSON(filepath.Join(*out, "backoff.json"), map[string]interface{}{"policies": len(pols), "cases": len(lines) + len(sat), "saturated_cases": len(sat), "samples": append(lines[:2], sat[len(sat)-1])})
 }
 
 func init() {
